@@ -1077,3 +1077,258 @@ func countingBound(b *ssa.BasicBlock) ssa.Value {
 	bo := ifi.Cond.(*ssa.BinOp)
 	return stripChange(bo.Y).(*ssa.Call).Call.Args[0]
 }
+
+// leadingCommentRule (C12.R6 / C13.R8): the parser attaches a comment group to the node whose first token follows it
+// (fields Comment and BeforeDescriptionComment of every node below the documents). A printer that writes the group after
+// any of the node's own text hands it to the *next* node when the output is parsed again. So in every formatter function
+// the call that prints X.Comment / X.BeforeDescriptionComment is not preceded, on any path from the function's entry (or
+// from the start of the iteration, inside a loop), by a call that writes text.
+func leadingCommentRule(c *Ctx, r *RuleResult) {
+	p := c.P
+	fcg := p.Func("formatter.(*formatter).FormatCommentGroup")
+	if fcg == nil {
+		r.AnchorLost("formatter.(*formatter).FormatCommentGroup")
+		return
+	}
+	fns := p.FuncsIn("formatter")
+	// emits: functions that (transitively) write to the output
+	emits := map[*ssa.Function]bool{}
+	for _, fn := range fns {
+		allInstrs(fn, func(in ssa.Instruction) {
+			if ci, ok := in.(ssa.CallInstruction); ok && ci.Common().IsInvoke() && ci.Common().Method.Name() == "Write" {
+				if _, f, ok := fieldLoadOf(ci.Common().Value); ok && f == "writer" {
+					emits[fn] = true
+				}
+			}
+		})
+	}
+	for changed := true; changed; {
+		changed = false
+		for _, fn := range fns {
+			if emits[fn] {
+				continue
+			}
+			allInstrs(fn, func(in ssa.Instruction) {
+				if ci, ok := in.(ssa.CallInstruction); ok {
+					if g := ci.Common().StaticCallee(); g != nil && emits[g] && !emits[fn] {
+						emits[fn] = true
+						changed = true
+					}
+				}
+			})
+		}
+	}
+	if !emits[fcg] {
+		r.AnchorLost("the write primitive under FormatCommentGroup")
+		return
+	}
+	n := 0
+	for _, fn := range fns {
+		for _, ci := range callsTo([]*ssa.Function{fn}, fcg) {
+			args := ci.Common().Args
+			arg := args[len(args)-1]
+			st, fld, ok := fieldLoadOf(arg)
+			if !ok || (fld != "Comment" && fld != "BeforeDescriptionComment") {
+				continue
+			}
+			switch st {
+			case "QueryDocument", "SchemaDocument", "Schema":
+				continue // a document's own comment group is what follows its last definition
+			}
+			n++
+			cb := ci.Block()
+			// the region: the function, or the innermost loop body around the call with its back edges cut
+			headers, bodies := loopsOf(fn)
+			var inner *ssa.BasicBlock
+			for _, h := range headers {
+				if bodies[h][cb] && (inner == nil || len(bodies[h]) < len(bodies[inner])) {
+					inner = h
+				}
+			}
+			var bad ssa.Instruction
+			for _, b := range fn.Blocks {
+				if inner != nil && !bodies[inner][b] {
+					continue
+				}
+				for _, in := range b.Instrs {
+					e, isCall := in.(ssa.CallInstruction)
+					if !isCall || in == ci.(ssa.Instruction) {
+						continue
+					}
+					g := e.Common().StaticCallee()
+					if g == nil || !emits[g] || g == fcg {
+						continue
+					}
+					// can e run before ci in the same iteration?
+					before := false
+					if b == cb {
+						before = instrIndex(in) < instrIndex(ci.(ssa.Instruction))
+					} else {
+						reach := reachAvoiding(b, nil, func(from, to *ssa.BasicBlock) bool {
+							return to.Dominates(from) // no back edges
+						})
+						before = reach[cb] && b != cb
+					}
+					if before && bad == nil {
+						bad = in
+					}
+				}
+			}
+			site := fmt.Sprintf("%s: FormatCommentGroup(%s.%s)", p.FuncName(fn), st, fld)
+			if bad != nil {
+				r.Fail(ci.Pos(), p.FuncName(fn), "leading comment of "+st+" written after text ("+fld+")", fmt.Sprintf("the call at %s can write text before the node's %s is printed: parsed again, the comment belongs to whatever token follows it, so the tree (and a second formatting) differs", p.Pos(bad.Pos()), fld))
+			} else {
+				r.OK(site, "no text is written before it in the function / iteration")
+			}
+		}
+	}
+	if n == 0 {
+		r.AnchorLost("calls FormatCommentGroup(X.Comment)")
+	}
+}
+
+// primitivesWriteTheirArgument (C12.R7 / C13.R9): a formatter function that takes a string and hands it (or something
+// computed from it) to a writing function does so on every path — the hand-over can be bypassed only along edges taken
+// because the string is empty or because of an option of the formatter (a bool field no method stores to). Layout state
+// (lineHead, padNext) decides what is written around the text, never whether the text itself is written.
+func primitivesWriteTheirArgument(c *Ctx, r *RuleResult) {
+	p := c.P
+	fmtT := p.LookupType("formatter", "formatter")
+	if fmtT == nil {
+		r.AnchorLost("formatter.formatter")
+		return
+	}
+	fns := p.FuncsIn("formatter")
+	emits := map[*ssa.Function]bool{}
+	for _, fn := range fns {
+		allInstrs(fn, func(in ssa.Instruction) {
+			if ci, ok := in.(ssa.CallInstruction); ok && ci.Common().IsInvoke() && ci.Common().Method.Name() == "Write" {
+				if _, f, ok := fieldLoadOf(ci.Common().Value); ok && f == "writer" {
+					emits[fn] = true
+				}
+			}
+		})
+	}
+	for changed := true; changed; {
+		changed = false
+		for _, fn := range fns {
+			if emits[fn] {
+				continue
+			}
+			allInstrs(fn, func(in ssa.Instruction) {
+				if ci, ok := in.(ssa.CallInstruction); ok {
+					if g := ci.Common().StaticCallee(); g != nil && emits[g] && !emits[fn] {
+						emits[fn] = true
+						changed = true
+					}
+				}
+			})
+		}
+	}
+	// layout state: bool fields of the formatter that some method stores to
+	stateField := map[string]bool{}
+	for _, fn := range fns {
+		if fn.Signature.Recv() == nil {
+			continue // options and the constructor configure the formatter before anything is written
+		}
+		allInstrs(fn, func(in ssa.Instruction) {
+			if st, ok := in.(*ssa.Store); ok {
+				if fa, ok := st.Addr.(*ssa.FieldAddr); ok {
+					if n, f, _, _ := fieldOf(fa); n != nil && sameNamed(n, fmtT) && fn.Parent() == nil {
+						stateField[f] = true
+					}
+				}
+			}
+		})
+	}
+	n := 0
+	for _, fn := range fns {
+		if fn.Signature.Recv() == nil || fn.Parent() != nil || !emits[fn] {
+			continue
+		}
+		for _, prm := range fn.Params[1:] {
+			if !isStringType(prm.Type()) {
+				continue
+			}
+			var handovers []ssa.CallInstruction
+			allInstrs(fn, func(in ssa.Instruction) {
+				ci, ok := in.(ssa.CallInstruction)
+				if !ok {
+					return
+				}
+				g := ci.Common().StaticCallee()
+				writes := g != nil && emits[g]
+				if ci.Common().IsInvoke() && ci.Common().Method.Name() == "Write" {
+					writes = true
+				}
+				if !writes {
+					return
+				}
+				for _, a := range ci.Common().Args {
+					if derivesFromAny(a, prm, 8) {
+						handovers = append(handovers, ci)
+						return
+					}
+				}
+			})
+			if len(handovers) == 0 {
+				continue
+			}
+			exempt := func(from, to *ssa.BasicBlock) bool {
+				ifi, ok := from.Instrs[len(from.Instrs)-1].(*ssa.If)
+				if !ok || len(from.Succs) != 2 || from.Succs[0] == from.Succs[1] {
+					return false
+				}
+				cd := normCond(Cond{V: ifi.Cond, True: to == from.Succs[0]})
+				// the string is empty
+				if bo, ok := cd.V.(*ssa.BinOp); ok {
+					x, y := bo.X, bo.Y
+					if s, isC := constString(y); isC && s == "" && x == ssa.Value(prm) {
+						return (bo.Op == token.EQL) == cd.True
+					}
+					if call, isCall := x.(*ssa.Call); isCall {
+						if b, isB := call.Call.Value.(*ssa.Builtin); isB && b.Name() == "len" && call.Call.Args[0] == ssa.Value(prm) {
+							if k, isK := constInt(y); isK && k == 0 {
+								return (bo.Op == token.EQL) == cd.True
+							}
+						}
+					}
+					return false
+				}
+				// an option of the formatter
+				if _, f, ok := fieldLoadOf(cd.V); ok && !stateField[f] {
+					if u, isU := unspill(stripChange(cd.V)).(*ssa.UnOp); isU {
+						if fa, isFA := u.X.(*ssa.FieldAddr); isFA {
+							if nn, _, _, _ := fieldOf(fa); nn != nil && sameNamed(nn, fmtT) {
+								return true
+							}
+						}
+					}
+				}
+				return false
+			}
+			// the text is handed over on every path: with all hand-over blocks removed, no return (or next iteration) is reachable
+			n++
+			okAll := true
+			for _, h := range handovers {
+				others := map[*ssa.BasicBlock]bool{}
+				for _, o := range handovers {
+					if o != h {
+						others[o.Block()] = true
+					}
+				}
+				if canSkip(h, func(from, to *ssa.BasicBlock) bool { return exempt(from, to) || others[to] }) {
+					okAll = false
+					r.Fail(h.Pos(), p.FuncName(fn), "the text handed to "+fn.Name()+" may not be written ("+prm.Name()+")", fmt.Sprintf("a path through %s returns without passing %s on to the writer, under a condition other than the string being empty or an option of the formatter: text the caller asked for silently disappears from the output (a whitespace-only description line, an empty-looking value), so what is parsed back differs", p.FuncName(fn), prm.Name()))
+					break
+				}
+			}
+			if okAll {
+				r.OK(fmt.Sprintf("%s(%s): %d hand-over(s) to the writer", p.FuncName(fn), prm.Name(), len(handovers)), "not bypassable except on an empty string or an option")
+			}
+		}
+	}
+	if n == 0 {
+		r.AnchorLost("formatter methods that take a string and write it")
+	}
+}
